@@ -2,6 +2,34 @@
 HOOK_COMMITS = []
 NOT_APPLICABLE = {}
 CLAIMS = {
+    "C02": dict(
+        text="spec/Spectrum.tla enumerates every (physics, dimension, element type, density, thickness) configuration - elasticity 2D/3D on the 15 surface/volume types, heat conduction on "
+        "all 19 types incl. segments, Euler-Bernoulli and Timoshenko beams on SEG2..SEG5 in 1D/2D/3D (inclined members) - and states the expected attributes exactly: kernel dimension, "
+        "definiteness class of the mass matrix, mass total rho*measure*thickness as a rational. Each TLC state is built with the real code and analysed densely: symmetry, inertia, "
+        "number of zero-energy modes equal to the expected one, K r = 0 for the translations and infinitesimal rotations, M definite / semi-definite, entry sums.",
+        note="Trusted: dense eigvalsh with threshold 1e-9*lambda_max; meshes of integer boxes (2 meshes per configuration in the thorough tier). TLC's role is enumeration, the exact expected values and coverage accounting; "
+        "the numerical attributes are computed from the implementation's matrices.",
+        technique="TLA+ attribute table enumerated by TLC, each state replayed as a dense spectral analysis of the real matrices",
+        design_ref="DESIGN.md 6/C02",
+    ),
+    "C06": dict(
+        text="The exact coefficient vectors of all tabulated shape functions and derivative tables (19 Lagrange families, orders 1-4 of derivatives; 4 Hermite beam families) are extracted from the "
+        "library's own callables with a polynomial-ring probe and handed to TLC as a trace; spec/ShapeTables.tla decides, as identities between polynomials (hence at every point of the reference "
+        "element), Kronecker, partition of unity, reproduction of all monomials up to the order, derivative-table = derivative, and the Hermite value/slope pattern. The evaluation path "
+        "(Get_N_pg, Get_dN_pg, ... , Get_Hermitian_*_pg) is compared with the polynomials at all Gauss points.",
+        note="Trusted: TLC, the polynomial-ring probe (Fraction arithmetic), snapping of coefficients to rationals with denominator <= 1e6 within 1e-11 (literal round-off recorded in the evidence). Exhaustive over all tables.",
+        technique="exact table extraction validated by a TLA+ specification of the polynomial identities (trace validation, exhaustive)",
+        design_ref="DESIGN.md 6/C06",
+    ),
+    "C07": dict(
+        text="Every rule the library offers (segments 1-8 points, triangles 1/3/6/7/12, quadrangles 4/9, tetrahedra 1/4/5/15, hexahedra 8/27, prisms 6/8/21) is recorded - weight sum, smallest barycentric "
+        "coordinate, moments of all monomials up to documented order + 2 snapped at 1e-13 - and spec/Quadrature.tla decides it against exact reference integrals (factorial formulas) and the documented orders; "
+        "measured orders are reported. Mesh level: measure, centroid and second moments of integer boxes for all 19 element types against exact rationals; the rank consequence is decided by the dense kernel analysis "
+        "shared with C02 (stiffness / conductivity of every element type on assembled meshes).",
+        note="Trusted: TLC, snapping tolerance 1e-13 with denominators <= 1e6 (unambiguous), straight-sided box meshes. The single-element counting condition is reported as a diagnostic only.",
+        technique="rule tables validated by a TLA+ specification with exact reference integrals (trace validation, exhaustive) + replay of mesh-level integrals",
+        design_ref="DESIGN.md 6/C07",
+    ),
     "C04": dict(
         text="spec/Constraints.tla computes, in exact rationals, the solution of every sequence of up to 3 (quick) / 4 (thorough) Dirichlet and point-load conditions on three "
         "systems (scalar chain; two dofs per node with unknown names given in any order; chain with an orphan node): dof lookup node*dof_n+index, sum convention for a dof "
